@@ -127,7 +127,11 @@ def install_counter():
 
     if _COUNT["installed"]:
         return
+    import inspect
+
     orig = Network.fromOpenDrive.__func__
+    _COUNT["defaults"] = {k: v.default for k, v in inspect.signature(orig).parameters.items()
+                          if v.default is not inspect.Parameter.empty}
 
     def counted(cls, *a, **k):
         _COUNT["n"] += 1
@@ -359,12 +363,18 @@ def one_byte_change(data, idx):
     return data[:pos] + bytes([48 + (d + 1) % 10]) + data[pos + 1:]
 
 
+def effective(opts):
+    """The options with the defaults of Network.fromOpenDrive's signature filled in."""
+    install_counter()
+    return {**_COUNT["defaults"], **opts}
+
+
 def judge_cache_case(case):
     from scenic.domains.driving.roads import Network
 
     out = core.Outcome()
     out.cls("kind:cache")
-    rel, opts, opts2 = case["map"], case["opts"], case["opts2"]
+    rel, opts = case["map"], case["opts"]
     ctx = {"map": rel, "opts": opts}
     data = map_bytes(rel)
     d = fresh_dir("cache-" + core.digest(case))
@@ -446,6 +456,9 @@ def judge_cache_case(case):
                 fpr = O.fingerprint(nref)
                 write(p, changed)
                 n2, calls = load(p, opts, useCache=True, writeCache=False)
+                if calls == 0:
+                    # statement: "the cache is ignored when the map ... differ[s]"
+                    out.fail("cache|stale-map:cache-used-although-map-changed", **ctx)
                 if fpr == fp0:
                     out.cls("cache:map-change-invisible")
                 else:
@@ -454,22 +467,28 @@ def judge_cache_case(case):
                 write(p, data)
 
         # (3) the options change, the old cache lies next to the map
-        try:
-            nref = fresh(data, opts2)
-        except Exception as e:
-            nref = None
-            out.cls("cache:changed-options-do-not-build")
-        if nref is not None:
+        cur = opts
+        for vi, opts2 in enumerate(case["opts2"]):
+            try:
+                nref = fresh(data, opts2)
+            except Exception as e:
+                out.cls("cache:changed-options-do-not-build")
+                continue
             fpr = O.fingerprint(nref)
             ansr = O.answers(nref, pts)
             out.cls("cache:options-change-invisible" if fpr == fp0 else "cache:stale-options")
             n3, calls = load(p, opts2, useCache=True, writeCache=True)
+            if calls == 0 and effective(opts2) != effective(cur):
+                # statement: "the cache is ignored when ... the map options differ"
+                out.fail("cache|stale-options:cache-used-although-options-changed",
+                         cached_for=cur, opts2=opts2, **ctx)
             same("stale-options", n3, fpr, ansr)
             # (4) the cache has been rewritten for the new options
             n4, calls = load(p, opts2, useCache=True, writeCache=False)
             if calls == 0:
                 out.cls("cache:rewritten-reloaded")
             same("rewritten", n4, fpr, ansr)
+            cur = opts2
         nt = bool(n0.intersections)
         for (x, y) in pts:
             info = O.check_probe(ix0, x, y)[1]
@@ -587,37 +606,40 @@ def probe_cases(rel, opts):
     })
 
 
-def option_sets():
-    return st.fixed_dictionaries({}, optional={
-        "tolerance": st.sampled_from(TOLERANCES),
-        "fill_gaps": st.booleans(),
-        "fill_intersections": st.booleans(),
-        "elide_short_roads": st.booleans(),
-        "ref_points": st.sampled_from([20, 12, 21]),
-    })
+def rand_probe(rng):
+    return {"cls": rng.choice(O.CLASSES), "k": rng.randrange(10 ** 6),
+            "anchor": rng.choice(O.ANCHORS + ("seam", "seam", "boundary")),
+            "u": rng.random(), "v": rng.random(),
+            "off": rng.choice(O.OFFSETS + ("tol", "tol", "lane")),
+            "r": rng.random(), "th": rng.random()}
 
 
-def one_option_changed(opts):
-    """The same options with exactly one of them changed, added or dropped."""
-    alts = []
-    for k, vals in (("tolerance", TOLERANCES), ("fill_gaps", (True, False)),
-                    ("fill_intersections", (True, False)), ("elide_short_roads", (True, False)),
-                    ("ref_points", (20, 12, 21))):
-        for v in vals:
-            if opts.get(k, None) != v:
-                alts.append({**opts, k: v})
-        if k in opts:
-            alts.append({x: y for x, y in opts.items() if x != k})
-    return st.sampled_from(alts)
+def one_option_changed(rng, opts, keys):
+    """The same options with exactly one of them (from `keys`) changed, added or dropped."""
+    values = {"tolerance": (0.01, 0.05, 0.1, 0.2, 0.01, 0.1, 0, 0.5), "ref_points": (20, 12, 21),
+              "fill_gaps": (True, False), "fill_intersections": (True, False),
+              "elide_short_roads": (True, False)}
+    for _ in range(100):
+        k = rng.choice(keys)
+        if k in opts and rng.random() < 0.25:
+            o = {x: y for x, y in opts.items() if x != k}
+        else:
+            o = {**opts, k: rng.choice(values[k])}
+        if effective(o) != effective(opts):
+            return o
+    raise core.HarnessError("could not draw a changed option set")
 
 
-def cache_cases(rel, opts):
-    return st.fixed_dictionaries({
-        "kind": st.just("cache"), "map": st.just(rel), "opts": st.just(opts),
-        "opts2": st.one_of(one_option_changed(opts), option_sets().filter(lambda o: o != opts)),
-        "edit": st.integers(0, 10 ** 6),
-        "probes": st.lists(probe_descriptors(), min_size=8, max_size=8),
-    })
+def gen_cache_case(rng, rel, opts):
+    """Cache scenarios are few and expensive: they are drawn from a random.Random owned by the
+    harness (a Hypothesis run of one or two examples would only ever produce the minimal one).
+    Two stale-option variants per case: a numeric option changed, then a boolean one."""
+    return {"kind": "cache", "map": rel, "opts": opts,
+            "opts2": [one_option_changed(rng, opts, ("tolerance", "tolerance", "ref_points")),
+                      one_option_changed(rng, opts, ("fill_gaps", "fill_intersections",
+                                                     "elide_short_roads"))],
+            "edit": rng.randrange(10 ** 6),
+            "probes": [rand_probe(rng) for _ in range(8)]}
 
 
 def edits():
@@ -700,9 +722,15 @@ def run_shard(shard, tier):
         if built:
             core.hyp_search(probe_cases(rel, opts), judge, shard["nprobe"], shard["seed"], col,
                             known_sigs=known, case_timeout=120, shrink_s=shrink_s)
-            if shard["ncache"]:
-                core.hyp_search(cache_cases(rel, opts), judge, shard["ncache"], shard["seed"] + 1,
-                                col, known_sigs=known, case_timeout=600, shrink=False)
+            rng = random.Random(f"C20:cache:{shard['seed']}")
+            for _ in range(shard["ncache"]):
+                case = gen_cache_case(rng, rel, opts)
+                try:
+                    with core.time_limit(900):
+                        out = judge(case)
+                except core.CaseTimeout:
+                    out = core.Outcome(inconclusive=True, classes=["timeout"])
+                col.add(case, out)
         if shard["nmut"] and built:
             core.hyp_search(mutated_cases(rel, opts), judge, shard["nmut"], shard["seed"] + 2,
                             col, known_sigs=known, case_timeout=120, shrink_s=shrink_s)
